@@ -78,8 +78,91 @@ def check_C16(tier, t0):
     return core.finish("C16", tier, engine, total, info, t0, extra, assumptions, rule)
 
 
+# ---------------------------------------------------------------------------------------------
+# C17
+# ---------------------------------------------------------------------------------------------
+
+
+def check_C17(tier, t0):
+    from . import engine_cli as ec
+
+    seed = core.verif_seed()
+    n = scale(40000 if tier == "quick" else 3000000)
+    n_real = 240 if tier == "quick" else 16000
+    bud = budget(150 if tier == "quick" else 1500)
+    params = {"seed": seed, "real_every": max(1, n // n_real)}
+    agg, info = core.run_batch(ec.make_engine, params, n, 500 if tier == "quick" else 5000, bud)
+    engine = ec.make_engine(seed, 0)
+    c = agg.counters
+    extra = {
+        "faults_fired": dict((k, v) for k, v in c.items() if k.startswith("fault.")),
+        "probes": dict((k, v) for k, v in c.items() if k.startswith("probe.")),
+        "clauses_reached": dict((k, v) for k, v in c.items() if k.startswith("reached.")),
+        "real_process_runs": c.get("real_process_runs", 0),
+        "stub_vs_real_agreements": c.get("stub_vs_real_agreements", 0),
+        "stub_vs_real_disagreements": c.get("stub_vs_real_disagreements", 0),
+        "distinct_states": {"measure": "distinct run digests (argv + terminal event log + exit status + stderr + builder result)",
+                            "count": len(agg.digests)},
+        "components": COMPONENTS_TERMINAL,
+    }
+    rule = ("seeded command lines (shuffled subsets of -2/-3/-4, -a, -n, -j, -v/--vector/--vector= with valid, "
+            "other-version, one-edit-away, empty, dash-leading, garbage and non-ASCII vectors) x seeded answer scripts "
+            "with EOF / mid-line EOF faults, against main() in-process; every k-th run repeated as a real child process. "
+            "Non-trivial = distinct (flag set + selected version, vector class, fault kind, prompt index of the fault, "
+            "clause reached) among runs that reached clause b, c or d.")
+    assumptions = [
+        "expected values come from the library API of the same tree (the CLI is compared with the library, not with a table)",
+        "output labels 'Base Score:', 'Temporal Score:', 'Environmental Score:', 'Cleaned vector:', 'Red Hat vector:'; JSON starts at the first line beginning with '{' (DESIGN 6.8)",
+        "v2 score lines need no rating; a rating that is printed must be the library's (DESIGN 3.3 i)",
+        "command lines with several version flags are informational (clause a only)",
+        "the in-process stub is validated against real child processes on a sampled subset (stub_vs_real_agreements)",
+        "stdin is a pipe / simulated stream, not a pseudo-terminal",
+    ]
+    return core.finish("C17", tier, engine, agg, info, t0, extra, assumptions, rule)
+
+
+# ---------------------------------------------------------------------------------------------
+# C08
+# ---------------------------------------------------------------------------------------------
+
+
+def check_C08(tier, t0):
+    from . import engine_emit as ee
+
+    seed = core.verif_seed()
+    n = scale(30000 if tier == "quick" else 2500000)
+    bud = budget(120 if tier == "quick" else 1500)
+    agg, info = core.run_batch(ee.make_engine, {"seed": seed}, n, 500 if tier == "quick" else 5000, bud)
+    engine = ee.make_engine(seed)
+    c = agg.counters
+    extra = {
+        "distinct_nontrivial": len(agg.extra_sets["nontrivial_strings"]),
+        "emitted_strings_validated": c.get("emitted_strings", 0),
+        "pure_clause_sampled": c.get("pure_clause_sampled", 0),
+        "runs_by_kind": dict((k, v) for k, v in c.items() if k.startswith("runs.")),
+        "faults_fired": dict((k, v) for k, v in c.items() if k.startswith("fault.")),
+        "distinct_states": {"measure": "distinct run digests (configuration / argv + terminal event log + emitted strings)",
+                            "count": len(agg.digests)},
+        "components": COMPONENTS_TERMINAL,
+    }
+    rule = ("seeded builder sessions (80% all-metrics, answers biased to defined values, EOF faults in 20%) and CLI runs "
+            "(-v with vectors in random field order / random optional subsets, or interactive entry) under the simulated "
+            "terminal; every vector string returned by the builder or printed on the 'Cleaned vector' / 'Red Hat vector' "
+            "lines is validated (own parser accepts it; pinned official vectorString pattern of the requested version "
+            "matches). Run kind 'api' only samples the pure clean_vector()/rh_vector() clause. Non-trivial = distinct "
+            "emitted string with at least one optional metric carrying a defined value.")
+    assumptions = [
+        "the four official vectorString patterns are pinned in /verif/spec/vectorstring_patterns.json (copied verbatim from the FIRST JSON schemas)",
+        "the pure clause (clean_vector()/rh_vector() over all accepted vectors) is sampled, not decided, by this family (DESIGN 3.1)",
+        "prompt/label format assumptions of DESIGN 6.8",
+    ]
+    return core.finish("C08", tier, engine, agg, info, t0, extra, assumptions, rule)
+
+
 CHECKS = {
+    "C08": check_C08,
     "C16": check_C16,
+    "C17": check_C17,
 }
 
 
@@ -90,6 +173,14 @@ def engine_for_trace(prop, trace):
         from . import engine_builder
 
         return engine_builder.make_engine(seed)
+    if name == "emit":
+        from . import engine_emit
+
+        return engine_emit.make_engine(seed)
+    if name == "cli":
+        from . import engine_cli
+
+        return engine_cli.make_engine(seed)
     raise core.HarnessError("no engine %r" % (name,))
 
 
@@ -100,6 +191,14 @@ def engines_of(prop):
         from . import engine_builder
 
         return [(engine_builder.make_engine, {"seed": seed, "mode": "random"})]
+    if prop == "C08":
+        from . import engine_emit
+
+        return [(engine_emit.make_engine, {"seed": seed})]
+    if prop == "C17":
+        from . import engine_cli
+
+        return [(engine_cli.make_engine, {"seed": seed, "real_every": 0})]
     raise core.HarnessError("no engine for %r" % (prop,))
 
 
